@@ -16,6 +16,14 @@ PFX_NOTE = ("Trusted: Lean kernel; the hand-written model of plugins/prefix/plug
             "histories (through the wire, so that length-0 and length>128 hints arrive as the library delivers them); the clock is a parameter; bitset and DHCPv6 codec not verified.")
 
 META = {
+    "C01": dict(
+        text="Lean theorems: every place where the code can panic is an explicit outcome of the model and is proved unreachable for every history (allocator BUG branches, toIP, the nil control message within the configuration space); dispatch ends in drop or exactly one send; the chain runs at most len(chain) handlers; all model functions are total. Partial: byte parsing, goroutines, sockets are runtime. Whole chains of real plugins are driven with mutated datagram histories under recover + watchdog.",
+        design_ref="DESIGN.md §4 C01", technique="Lean 4 theorems (panic outcomes unreachable, totality) + direct judging of whole real plugin chains through the capture hook + go/ast facts F1, F2, F5",
+        note="Partial: the theorem covers the modelled logic (dispatch, allocators, lease plugins); the library's byte parser, goroutine creation, socket writes and the scheduler are outside any executable model and are only exercised."),
+    "C16": dict(
+        text="Lean theorems: any schedule of concurrent callers is an interleaving of atomic steps, i.e. an operation list, and the lease guarantees (C02-C10) are proved for all operation lists. Concurrent batches on the real code are checked for linearisability against the model (search for a one-at-a-time order that explains the outcomes). Partial: data races and buffer aliasing are memory properties (race detector + facts F1, F4).",
+        design_ref="DESIGN.md §4 C16", technique="Lean 4 theorems over all interleavings of atomic steps + linearisability search of concurrent batches against the model + go/ast facts F1, F2, F4 + race detector (thorough)",
+        note="Partial: data-race freedom and receive-buffer recycling are not expressible in the model; atomicity of handlers rests on fact F1 (syntactic)."),
     "C10": dict(
         text="Lean refinement proof: for every history of set-ups, refreshes (good or bad) and queries of both protocols, every answer of the table-based model equals what the file currently in force lists (computed directly from the lines, last occurrence wins); acceptance iff all lines well-formed; a bad update changes nothing; loading one protocol never changes the other. The monitor judges the real plugin on generated lease files in every MAC/IP spelling, with rewrites under autorefresh.",
         design_ref="DESIGN.md §4 C10", technique="Lean 4 refinement proof (table vs. file-as-written, all histories) + conformance against the real file plugin incl. fsnotify-driven refresh",
@@ -63,4 +71,4 @@ META = {
 }
 NOT_YET = {}
 # properties whose check is complete and registered
-ENABLED = {"C20", "C02", "C03", "C04", "C05", "C06", "C07", "C11", "C12", "C13", "C15", "C08", "C09", "C10"}
+ENABLED = {"C20", "C02", "C03", "C04", "C05", "C06", "C07", "C11", "C12", "C13", "C15", "C08", "C09", "C10", "C01", "C16"}
